@@ -44,19 +44,6 @@ theorem norm_idem_total (S : Schema) (hS : S.WF) (hm : noMandFs S.fields = true)
     S.encode (S.decode (S.encode (S.decode x))) = S.encode (S.decode x) := by
   rw [decode_encode S hS _ (decode_lands_canon_total S hm x)]
 
-/-- **The fixpoint also holds for the classes whose writer drops an attribute** (today's `FastFeature`,
-SASL 2 stream feature, `<stream:features/>`): the dropped attribute is gone after the first pass and
-stays gone.  Hypothesis: the *repaired* schema is well-formed (`C01Codec.fix_…Code`). -/
-theorem norm_idem_code (S : Schema) (hS : S.fix.WF) (x y : Node) (h : S.norm x = some y) :
-    S.norm y = some y := by
-  simp only [Schema.norm, Option.map_eq_some_iff] at h
-  obtain ⟨v, hv, rfl⟩ := h
-  have hc := decode_lands_canon S x v hv
-  have h1 := decode_encode_code S hS v hc
-  simp only [Schema.norm, h1, Option.map_some]
-  congr 1
-  simp only [Schema.encode, encFs_reset]
-
 /-- non-vacuity: a foreign element is a legitimate input of `norm_idem_total` -/
 example : noMandFs Classes.Bind2Request.fields = true := by decide
 
